@@ -486,6 +486,227 @@ def leaves(stmts):
 
 
 # ---------------------------------------------------------------------------
+# index-scan loops:  `acc = []; i = 0; while i < len(text): <body>;  <epilogue>; return X`
+#
+# The body is translated statement by statement into a state transformer over the variables
+# the loop assigns (in continuation-passing style: an `if` that does not leave the iteration is
+# followed by the rest of the body in both branches; `continue` and the end of the body yield the
+# current state).  `text[i]` is `Py.idx` (IndexError as a value), so the function is emitted in
+# the `Except PyErr` monad; the loop itself gets a fuel argument of `len(text) + 1` and *raises*
+# when the fuel runs out — the tie theorem `… = pure (model …)` therefore also proves that no
+# IndexError is raised and that the loop terminates.
+
+def _char_or_str_literal(e):
+    return isinstance(e, ast.Constant) and isinstance(e.value, str) and len(e.value) == 1
+
+
+def tr_scan_expr(e, cx):
+    """expressions inside a scan loop -> (text, type, monadic); types: nat, char, str (List Char), bool,
+    strlist (List (List Char)), charbuf (List Char being built with .append)"""
+    if isinstance(e, ast.Constant):
+        if isinstance(e.value, bool):
+            return ("true" if e.value else "false", "bool", False)
+        if isinstance(e.value, int):
+            return (str(e.value), "nat", False)
+        if isinstance(e.value, str):
+            if len(e.value) == 1:
+                return (lean_char(e.value).replace("'\n'", "'\\n'"), "char", False)
+            return (lean_str(e.value).replace("\n", "\\n"), "str", False)
+    if isinstance(e, ast.List) and not e.elts:
+        return ("[]", "emptylist", False)
+    if isinstance(e, ast.Name):
+        if e.id not in cx.types:
+            raise Untranslatable(f"unknown name {e.id}")
+        return (cx.name(e.id), cx.types[e.id], False)
+    if isinstance(e, ast.BinOp) and isinstance(e.op, ast.Add):
+        a, aty, am = tr_scan_expr(e.left, cx)
+        b, bty, bm = tr_scan_expr(e.right, cx)
+        if aty == "nat" and bty == "nat" and not (am or bm):
+            return (f"({a} + {b})", "nat", False)
+        raise Untranslatable(f"+ on {aty},{bty} in a scan loop")
+    if isinstance(e, ast.Subscript) and isinstance(e.value, ast.Name) and cx.types.get(e.value.id) == "str" \
+            and not isinstance(e.slice, ast.Slice):
+        ix, ity, im = tr_scan_expr(e.slice, cx)
+        if ity != "nat" or im:
+            raise Untranslatable("index type")
+        return (f"(Py.idx {cx.name(e.value.id)} {paren(ix)})", "char", True)
+    if isinstance(e, ast.Call) and isinstance(e.func, ast.Name) and e.func.id == "len" and len(e.args) == 1:
+        a, aty, am = tr_scan_expr(e.args[0], cx)
+        if aty != "str" or am:
+            raise Untranslatable("len arg")
+        return (f"(List.length {paren(a)})", "nat", False)
+    if isinstance(e, ast.Call) and isinstance(e.func, ast.Attribute) and e.func.attr == "join" \
+            and isinstance(e.func.value, ast.Constant) and e.func.value.value == "" and len(e.args) == 1:
+        a, aty, am = tr_scan_expr(e.args[0], cx)
+        if aty != "charbuf" or am:
+            raise Untranslatable('"".join of ' + aty)
+        return (a, "str", False)
+    if isinstance(e, ast.Compare) and len(e.ops) == 1:
+        a, aty, am = tr_scan_expr(e.left, cx)
+        b, bty, bm = tr_scan_expr(e.comparators[0], cx)
+        if am or bm:
+            raise Untranslatable("monadic comparison operand")
+        op = e.ops[0]
+        if isinstance(op, ast.Eq) and aty == bty and aty in ("char", "nat", "str"):
+            return (f"({a} == {b})", "bool", False)
+        if isinstance(op, ast.Lt) and aty == "nat" and bty == "nat":
+            return (f"(decide ({a} < {b}))", "bool", False)
+        if isinstance(op, ast.In) and aty == "char" and bty == "str":
+            return (f"(List.elem {a} {paren(b)})", "bool", False)
+        raise Untranslatable(f"comparison {type(op).__name__} on {aty},{bty}")
+    if isinstance(e, ast.BoolOp):
+        parts = [tr_scan_expr(v, cx) for v in e.values]
+        if any(m for _, _, m in parts) or any(t != "bool" for _, t, _ in parts):
+            raise Untranslatable("and/or operands in a scan loop")
+        op = " && " if isinstance(e.op, ast.And) else " || "
+        return ("(" + op.join(t for t, _, _ in parts) + ")", "bool", False)
+    if isinstance(e, ast.IfExp):
+        c, cty, cm = tr_scan_expr(e.test, cx)
+        a, aty, am = tr_scan_expr(e.body, cx)
+        b, bty, bm = tr_scan_expr(e.orelse, cx)
+        if cm or am or bm or cty != "bool" or aty != bty:
+            raise Untranslatable("conditional expression shape")
+        return (f"(if {c} then {a} else {b})", aty, False)
+    raise Untranslatable(f"scan-loop expression {ast.dump(e)[:70]}")
+
+
+def tr_scan_stmts(stmts, cx, state, indent, at_end):
+    """-> Lean text of type Except PyErr State.  `at_end` is the text to yield when control falls off."""
+    pad = "  " * indent
+    if not stmts:
+        return pad + at_end
+    s, rest = stmts[0], stmts[1:]
+    if isinstance(s, ast.Continue):
+        return pad + at_end
+    if isinstance(s, ast.Assign) and len(s.targets) == 1 and isinstance(s.targets[0], ast.Name):
+        v = s.targets[0].id
+        t, ty, m = tr_scan_expr(s.value, cx)
+        if ty == "emptylist":
+            ty = cx.types.get(v) or cx.spec.get("locals", {}).get(v)
+            if ty is None:
+                raise Untranslatable(f"type of the empty list assigned to {v}")
+        if v in cx.types and cx.types[v] != ty:
+            raise Untranslatable(f"{v} changes type")
+        cx.types[v] = ty
+        if m:
+            return pad + f"({t} >>= fun {cx.name(v)} =>\n{tr_scan_stmts(rest, cx, state, indent + 1, at_end)})"
+        return pad + f"let {cx.name(v)} := {t}\n{tr_scan_stmts(rest, cx, state, indent, at_end)}"
+    if isinstance(s, ast.AugAssign) and isinstance(s.target, ast.Name) and isinstance(s.op, ast.Add):
+        v = s.target.id
+        t, ty, m = tr_scan_expr(s.value, cx)
+        if cx.types.get(v) != "nat" or ty != "nat" or m:
+            raise Untranslatable("+= shape")
+        return pad + f"let {cx.name(v)} := ({cx.name(v)} + {t})\n{tr_scan_stmts(rest, cx, state, indent, at_end)}"
+    if isinstance(s, ast.Expr) and isinstance(s.value, ast.Call) and isinstance(s.value.func, ast.Attribute) \
+            and s.value.func.attr == "append" and isinstance(s.value.func.value, ast.Name) and len(s.value.args) == 1:
+        v = s.value.func.value.id
+        t, ty, m = tr_scan_expr(s.value.args[0], cx)
+        want = {"charbuf": "char", "strlist": "str"}.get(cx.types.get(v))
+        if want is None or ty != want or m:
+            raise Untranslatable(f"{v}.append({ty})")
+        return pad + f"let {cx.name(v)} := ({cx.name(v)} ++ [{t}])\n{tr_scan_stmts(rest, cx, state, indent, at_end)}"
+    if isinstance(s, ast.If):
+        c, cty, cm = tr_scan_expr(s.test, cx)
+        if cm or cty != "bool":
+            raise Untranslatable("scan-loop condition")
+        saved = dict(cx.types)
+        thn = tr_scan_stmts(s.body + ([] if _leaves_iter(s.body) else rest), cx, state, indent + 1, at_end)
+        cx.types = dict(saved)
+        els = tr_scan_stmts((s.orelse or []) + ([] if _leaves_iter(s.orelse) else rest), cx, state, indent + 1, at_end)
+        cx.types = saved
+        return pad + f"(if {c} then\n{thn}\n{pad}else\n{els})"
+    raise Untranslatable(f"scan-loop statement {type(s).__name__}")
+
+
+def _leaves_iter(stmts):
+    return bool(stmts) and isinstance(stmts[-1], ast.Continue)
+
+
+def translate_scan(spec, repo=REPO):
+    src = open(os.path.join(repo, spec["file"]), encoding="utf-8").read()
+    fn = find_func(ast.parse(src), spec["func"])
+    if fn is None:
+        raise Untranslatable(f"function {spec['func']} not found")
+    if [a.arg for a in fn.args.args] != [p[0] for p in spec["params"]]:
+        raise Untranslatable("signature changed")
+    cx = Ctx(spec)
+    body = [b for b in fn.body if not (isinstance(b, ast.Expr) and isinstance(b.value, ast.Constant))]
+    k = next((j for j, b in enumerate(body) if isinstance(b, ast.While)), None)
+    if k is None or any(isinstance(b, ast.While) for b in body[k + 1:]):
+        raise Untranslatable("exactly one while loop expected")
+    loop = body[k]
+    if loop.orelse:
+        raise Untranslatable("while-else")
+    # prologue: initialisations of the state variables
+    state = []
+    inits = {}
+    for b in body[:k]:
+        if not (isinstance(b, ast.Assign) and len(b.targets) == 1 and isinstance(b.targets[0], ast.Name)):
+            raise Untranslatable("prologue statement")
+        v = b.targets[0].id
+        t, ty, m = tr_scan_expr(b.value, cx)
+        if ty == "emptylist":
+            ty = spec["locals"][v]
+        if m:
+            raise Untranslatable("monadic initialiser")
+        cx.types[v] = ty
+        state.append(v)
+        inits[v] = t
+    # guard:  i < len(text)
+    g = loop.test
+    if not (isinstance(g, ast.Compare) and len(g.ops) == 1 and isinstance(g.ops[0], ast.Lt) and isinstance(g.left, ast.Name)
+            and g.left.id in state and cx.types[g.left.id] == "nat"):
+        raise Untranslatable("loop guard shape")
+    bound, bty, bm = tr_scan_expr(g.comparators[0], cx)
+    if bty != "nat" or bm or not (isinstance(g.comparators[0], ast.Call) and isinstance(g.comparators[0].func, ast.Name)
+                                   and g.comparators[0].func.id == "len"):
+        raise Untranslatable("loop bound must be len(<parameter>)")
+    ivar = g.left.id
+    sty = {"nat": "Nat", "charbuf": "List Char", "strlist": "List (List Char)", "str": "List Char", "bool": "Bool"}
+    tup = "(" + ", ".join(cx.name(v) for v in state) + ")"
+    tupty = " × ".join(sty[cx.types[v]] for v in state)
+    params = " ".join(f"({cx.name(n)} : {LEAN_TY[t]})" for n, t in spec["params"])
+    pnames = " ".join(cx.name(n) for n, _ in spec["params"])
+    svars = " ".join(f"({cx.name(v)} : {sty[cx.types[v]]})" for v in state)
+    snames = " ".join(cx.name(v) for v in state)
+    types_at_loop = dict(cx.types)
+    body_txt = tr_scan_stmts(loop.body, cx, state, 1, f"(pure {tup})")
+    cx.types = types_at_loop
+    # epilogue
+    epi = body[k + 1:]
+    if not epi or not isinstance(epi[-1], ast.Return):
+        raise Untranslatable("epilogue must end in return")
+    rt, rty, rm = None, None, None
+
+    def epilogue(stmts, indent):
+        pad = "  " * indent
+        s0, rest0 = stmts[0], stmts[1:]
+        if isinstance(s0, ast.Return):
+            t, ty, m = tr_scan_expr(s0.value, cx)
+            if m or ty != spec["returns"]:
+                raise Untranslatable(f"return of {ty}")
+            return pad + f"(pure {paren(t)})"
+        return tr_scan_stmts([s0], cx, state, indent, "").rstrip() + "\n" + epilogue(rest0, indent)
+    epi_txt = epilogue(epi, 2)
+    ret = sty[spec["returns"]]
+    L = spec["lean"]
+    return (
+        f"/-- one iteration of the loop of `{spec['file']}::{spec['func']}` -/\n"
+        f"def {L}_body {params} {svars} : Except Py.PyErr ({tupty}) :=\n{body_txt}\n\n"
+        f"/-- the loop, with fuel; running out of fuel is an error, so `= pure …` proves termination -/\n"
+        f"def {L}_loop {params} : Nat → {' → '.join(sty[cx.types[v]] for v in state)} → Except Py.PyErr ({tupty})\n"
+        f"  | 0, {', '.join('_' for _ in state)} => throw (Py.PyErr.raised \"FuelExhausted\" \"\")\n"
+        f"  | fuel + 1, {', '.join(cx.name(v) for v in state)} =>\n"
+        f"    if {cx.name(ivar)} < {bound} then\n"
+        f"      {L}_body {pnames} {snames} >>= fun {tup} => {L}_loop {pnames} fuel {snames}\n"
+        f"    else pure {tup}\n\n"
+        f"/-- translated from `{spec['file']}::{spec['func']}` -/\n"
+        f"def {L} {params} : Except Py.PyErr ({ret}) :=\n"
+        f"  {L}_loop {pnames} ({bound} + 1) {' '.join(paren(inits[v]) for v in state)} >>= fun {tup} =>\n{epi_txt}\n"
+    )
+
+
+# ---------------------------------------------------------------------------
 # which functions
 
 LEAN_TY = {"nat": "Nat", "str": "List Char", "ostr": "Option (List Char)", "bool": "Bool", "time": "Int", "comp": "Py.Comp",
@@ -521,6 +742,81 @@ SPECS = [
     dict(module="TimeRange", file="xandikos/icalendar.py", func="apply_time_range_vfreebusy", lean="apply_time_range_vfreebusy",
          params=[("start", "time"), ("end", "time"), ("comp", "comp"), ("tzify", "tzify")], returns="bool",
          raises=True, rename={"end": "end_"}),
+]
+
+
+# ---------------------------------------------------------------------------
+# wsgi_helpers.WellknownRedirector.__call__: which requests are answered with the redirect
+
+def _module_str_constant(repo, relfile, name):
+    tree = ast.parse(open(os.path.join(repo, relfile), encoding="utf-8").read())
+    for node in tree.body:
+        if isinstance(node, ast.Assign) and len(node.targets) == 1 and isinstance(node.targets[0], ast.Name) \
+                and node.targets[0].id == name and isinstance(node.value, ast.Constant) and isinstance(node.value.value, str):
+            return node.value.value
+    raise Untranslatable(f"constant {name} not found in {relfile}")
+
+
+def translate_wellknown(repo=REPO):
+    """-> Lean text: the set WELLKNOWN_DAV_PATHS and the predicate "this request is redirected"; the
+    shape of `__call__` (redirect to `self._dav_root` with a 30x status, everything else handed to the
+    inner application unchanged) is checked, not translated"""
+    web = ast.parse(open(os.path.join(repo, "xandikos/web.py"), encoding="utf-8").read())
+    paths = None
+    for node in web.body:
+        if isinstance(node, ast.Assign) and len(node.targets) == 1 and isinstance(node.targets[0], ast.Name) \
+                and node.targets[0].id == "WELLKNOWN_DAV_PATHS" and isinstance(node.value, ast.Set):
+            paths = []
+            for el in node.value.elts:
+                if not (isinstance(el, ast.Attribute) and isinstance(el.value, ast.Name) and el.value.id in ("caldav", "carddav")):
+                    raise Untranslatable("WELLKNOWN_DAV_PATHS element shape")
+                paths.append(_module_str_constant(repo, f"xandikos/{el.value.id}.py", el.attr))
+    if paths is None:
+        raise Untranslatable("WELLKNOWN_DAV_PATHS not found")
+    src = ast.parse(open(os.path.join(repo, "xandikos/wsgi_helpers.py"), encoding="utf-8").read())
+    cls = next((n for n in src.body if isinstance(n, ast.ClassDef) and n.name == "WellknownRedirector"), None)
+    fn = next((n for n in (cls.body if cls else []) if isinstance(n, ast.FunctionDef) and n.name == "__call__"), None)
+    if fn is None or [a.arg for a in fn.args.args] != ["self", "environ", "start_response"]:
+        raise Untranslatable("WellknownRedirector.__call__ not found / signature changed")
+    body = [b for b in fn.body if not (isinstance(b, ast.Expr) and isinstance(b.value, ast.Constant))]
+    if len(body) != 3 or not isinstance(body[0], ast.Assign) or not isinstance(body[1], ast.If) or not isinstance(body[2], ast.Return):
+        raise Untranslatable("__call__ body shape")
+    spec = dict(params=[("environ", "environ")], pathctx=True,
+                subscripts={("environ", "SCRIPT_NAME"): ("script", "str"), ("environ", "PATH_INFO"): ("path_info", "str")})
+    cx = Ctx(spec)
+    var = body[0].targets[0].id
+    t, ty, m = tr_expr(body[0].value, cx)
+    if ty != "str" or m:
+        raise Untranslatable("path expression")
+    test = body[1].test
+    if not (isinstance(test, ast.Compare) and len(test.ops) == 1 and isinstance(test.ops[0], ast.In)
+            and isinstance(test.left, ast.Name) and test.left.id == var
+            and isinstance(test.comparators[0], ast.Name) and test.comparators[0].id == "WELLKNOWN_DAV_PATHS") or body[1].orelse:
+        raise Untranslatable("redirect condition shape")
+    ib = body[1].body
+    ok = (len(ib) == 2 and isinstance(ib[0], ast.Expr) and isinstance(ib[0].value, ast.Call)
+          and isinstance(ib[0].value.func, ast.Name) and ib[0].value.func.id == "start_response"
+          and len(ib[0].value.args) == 2 and isinstance(ib[0].value.args[0], ast.Constant)
+          and str(ib[0].value.args[0].value).startswith("30")
+          and ast.unparse(ib[0].value.args[1]) == "[('Location', self._dav_root)]"
+          and isinstance(ib[1], ast.Return) and ast.unparse(ib[1].value) == "[]")
+    if not ok:
+        raise Untranslatable("redirect branch shape (status / Location)")
+    if ast.unparse(body[2].value) != "self._inner_app(environ, start_response)":
+        raise Untranslatable("pass-through branch shape")
+    rows = ", ".join(lean_str(p) for p in paths)
+    return (f"/-- translated from `xandikos/web.py::WELLKNOWN_DAV_PATHS` -/\n"
+            f"def wellknown_dav_paths : List (List Char) := [{rows}]\n\n"
+            f"/-- translated from `xandikos/wsgi_helpers.py::WellknownRedirector.__call__`: `true` = answered with the "
+            f"redirect to the DAV root, `false` = handed to the inner application unchanged -/\n"
+            f"def wellknown_redirects (script : List Char) (path_info : List Char) : Bool :=\n"
+            f"  let {var} := {t}\n  (List.elem {var} wellknown_dav_paths)\n")
+
+
+SCAN_SPECS = [
+    dict(module="Unescape", file="xandikos/icalendar.py", func="_unescape_text", lean="unescape_text",
+         params=[("text", "str"), ("split", "bool")], returns="strlist",
+         locals={"parts": "strlist", "cur": "charbuf"}),
 ]
 
 
@@ -637,6 +933,16 @@ def generate(repo=REPO, out_dir=GEN_DIR):
             mods[spec["module"]].append((spec, translate_one(spec, repo), None))
         except (Untranslatable, SyntaxError, KeyError, IndexError, AttributeError) as e:
             mods[spec["module"]].append((spec, None, f"{type(e).__name__}: {e}"))
+    for spec in SCAN_SPECS:
+        mods.setdefault(spec["module"], [])
+        try:
+            mods[spec["module"]].append((spec, translate_scan(spec, repo), None))
+        except (Untranslatable, SyntaxError, KeyError, IndexError, AttributeError) as e:
+            mods[spec["module"]].append((spec, None, f"{type(e).__name__}: {e}"))
+    try:
+        mods["Wellknown"] = [({"func": "WellknownRedirector.__call__"}, translate_wellknown(repo), None)]
+    except (Untranslatable, SyntaxError, KeyError, IndexError, AttributeError, StopIteration) as e:
+        mods["Wellknown"] = [({"func": "WellknownRedirector.__call__"}, None, f"{type(e).__name__}: {e}")]
     result = {}
     for mod, items in mods.items():
         errs = [f"{s['func']}: {err}" for s, t, err in items if err]
